@@ -64,7 +64,18 @@ def run_case(ck, paths, idx, big):
             gapped_name = rng.choice(cand)
             ck.count("inputs_with_gap_characters_in_one_record")
 
+    block_fmt = None
+    if gapped_name is None and max(len(n_) for n_, _ in recs) <= 60 and all(s_ for _, s_ in recs) and rng.random() < 0.25:
+        block_fmt = rng.choice(["msf", "clu"])
+        ck.count("inputs_presented_as_%s" % block_fmt)
+
     def present(rs):
+        if block_fmt is not None:
+            rows_ = gen.insert_gaps(ck.rng.__class__(idx), [s_ for _, s_ in rs], 0.2, "-")
+            f_ = ck.tmp("." + block_fmt)
+            text = fmt.write_msf(list(zip([n_ for n_, _ in rs], rows_)), protein=(kind == "protein")) if block_fmt == "msf" else fmt.write_clustal(list(zip([n_ for n_, _ in rs], rows_)))
+            common.write_bytes(f_, text)
+            return [f_]
         if gapped_name is None:
             return None
         out = []
